@@ -172,7 +172,7 @@ RULE_ADDENDA = {
     "C05": "Eight panic-value kinds incl. a typed-nil pointer error, a typed-nil Stringer and an error whose Error() panics; optional Observability; publish through an interface-typed value; panic handler by option or setter, optionally re-entering the bus. One run in five registers its handlers through SubscribeWithReplay on a persistent bus; in a quarter of the others publishes carry a cancellable context which a panicking invocation cancels before it panics (deliveries of that event are then indeterminate: none more often than published, every panic still reported once).",
     "C06": "Registrations may also be Sequential and filtered (even / odd ids), so several Async+Sequential handlers of one type see different event counts.",
     "C07": "Cancellation of chosen publishes by a synchronous neighbour or by a task of its own 0-40 decision points after the publish started; a first invocation 40 times longer than the others (a queue builds up); one run in six uses resumable Sequential subscriptions (SubscribeWithReplay) made while publishers run, checked for overlap only. One run in twenty is a deep run: one publisher, 130-400 events queued behind a first invocation that lasts until nearly all of them are published. In a third of the runs the context a context-aware handler was given (for a publish that is never cancelled) is kept and used for later publishes with odd ids by any publisher task.",
-    "C10": "A quarter of the SQLite / durable-streams runs open the store with its optional instrumentation (metrics hook whose callbacks are decision points, logger, 250 ms busy timeout, no auto-migration on reopen). Explicit cases: 1025- and 2100-event histories with reads and streams resumed around positions 1023-1025; generated histories include appends with an already cancelled context and, on file-based SQLite, a second handle on the same file. Zones include two whose offset has seconds (+00:57:44, -00:19:32). append-other operations keep writing to the separately created second store during the history; at the end it must read back exactly its own events (memory and SQLite).",
+    "C10": "A quarter of the SQLite / durable-streams runs open the store with its optional instrumentation (metrics hook whose callbacks are decision points, logger, 250 ms busy timeout, no auto-migration on reopen). Explicit cases: 1025- and 2100-event histories with reads and streams resumed around positions 1023-1025; generated histories include appends with an already cancelled context and, on file-based SQLite, a second handle on the same file. Zones include two whose offset has seconds (+00:57:44, -00:19:32). append-other operations keep writing to the separately created second store during the history; at the end it must read back exactly its own events (memory and SQLite). Half of the two-handle runs end with one subscription saved through both handles in turn (first handle, second handle, first handle with its earlier value) and loaded back through both.",
     "C11": "Transport faults incl. a GET answered after the client's deadline; callbacks that cancel and return an error in one call; a quarter of the SQLite / durable-streams runs with store instrumentation options. Explicit cases include logs of 1023 / 1024 / 1025 / 2049 / 4096 / 10001 and 16 500 events; injected read failures and failing stream rows come in two flavours, an opaque error and one that wraps io.EOF. A third of the logs are odd: neighbouring timestamps swapped and / or every fifth event's data the document null and every seventh event's type empty; events are identified by their timestamp.",
     "C12": "SQL-level failure of one chosen write to the subscription table; SQLite runs optionally with store instrumentation options and no auto-migration on reopen. A third of the generations are sub-first (the publisher starts when the subscriber's catch-up is done); offsets optionally live in a separate subscription store; explicit cases: 224 four-generation restart histories (one or two event shapes) (subscribe+publish, writer-only generation, fresh bus that catches up and whose first or last append fails or loses its acknowledgement, or a second id joins; resume) on MemoryStore and SQLite. Subscription ids differ only in letter case ('Sub-x', 'sub-x'). A quarter of the runs have a 20 ms persistence timeout, publishers with 60 ms sleep steps, and offset operations that refuse a dead context; the bus calling SaveOffset / LoadOffset with a dead context while the subscriber's context is live is a violation. With a single subscription, a quarter of the runs have a handler that publishes one follow-up event of the same shape when it is handed an event with id = 1 mod 3 by live delivery (at most 6 follow-ups). Every PVal handed to a resumable subscription is compared as a whole with what decoding the stored event yields.",
     "C13": "Error handler by option or by SetPersistenceErrorHandler; WithStore first or last among the options; publishes optionally carry a context with its own 10 s deadline; invalid json.RawMessage events.",
@@ -186,6 +186,7 @@ RULE_ADDENDA = {
     "C09": "A quarter of the runs use a store that ignores its context and takes 1 or 20 ms per Append, next to a 5 ms persistence timeout; with the in-memory store and several publisher tasks, a third of the runs put every other publisher on a second bus created with WithStore of the same store. Event shapes include one whose JSON encoding has an exact length (4096, 32768, 65535, 65536, 65537 or 262144 bytes).",
 }
 TAPE_NOTE = " Half of the drawn choice tapes end in a tail seed that expands to 4000 further pseudo-random choices (stickiness 3/6/9 in 10), so long runs keep switching tasks after the explicit tape is used up."
+PROPS["C14"]["rule"] += " Every other workload is forced to contain a SaveOffset at the latest event, a rewind of that subscription to the first event and one to OffsetOldest; every fourth opens a second handle on the file and saves one subscription through both handles in turn before closing it."
 for _pid, _m in PROPS.items():
     if _pid in RULE_ADDENDA:
         _m["rule"] += " " + RULE_ADDENDA[_pid]
